@@ -71,6 +71,16 @@ claim("C15",
       "Not decided: the registry maps valueToECI/nameToECI (Go maps are not modelled: lookups return arbitrary values), GetCharacterSetECI/ByName/ByValue consistency, that the ECI segment is emitted whenever a hint is given, "
       "guessCharset, the transcoders of golang.org/x/text (external), decodeByteSegment's choice of character set, the end-to-end round trip per encoding.",
       "x/text transcoders and ianaindex are external stubs; maps unmodelled; tables dumped from the compiled package.")
+claim("C02",
+      "Narrow claim on codeword-level mirror pieces of the Data Matrix codec (the round trip and termination of the high-level encoder are not decided): "
+      "Base 256: base256Randomize255State and the decoder's unrandomize255State are proved equal to the annex B.2 formulas and inverse of each other for every byte and position (lemma), and the two-byte length field is inverted by the decoder's arithmetic; "
+      "pad codewords follow the 253-state rule (C08); EDIFACT: decodeEdifactSegment is proved to end without consuming anything when two or fewer codewords remain (5.2.8.2); "
+      "X12: x12EncodeChar appends exactly the table value of the character and fails exactly on characters outside the set, the value table is inverted by the decoder's table (all 256 bytes), and x12HandleEOD hands the buffered values back, "
+      "selects a symbol, and omits the unlatch codeword 254 exactly when the symbol is full with nothing left or one character and one codeword remain; "
+      "Decoder.correctErrors passes every codeword of a block to the Reed-Solomon decoder in order and copies back only the data codewords; the parity blocks and their interleaving on the encoder side are C08; symbol choice is C13. "
+      "Not decided: EncodeHighLevel and lookAheadTest (mode switching, termination), the C40/Text/EDIFACT/ASCII encoders and their end-of-data rules, decodeAsciiSegment/decodeC40Segment/decodeTextSegment/decodeBase256Segment against the encoders, "
+      "DataBlocks_getDataBlocks de-interleaving, error propagation in Decoder.Decode and EncodeHighLevel. Pre-screened suspicions in this area (extended-ASCII characters returned as raw bytes, swallowed encoder errors) were not turned into checks and are listed as open in DESIGN.md.",
+      "SymbolInfo_Lookup under its C13 contract; tables dumped from the compiled package; x/text charmap external.")
 claim("C03",
       "Narrow claim on the writer/reader mirror pieces of the 1-D symbologies (the rendered-image round trip itself is not decided): "
       "Code 128: code128ChooseCode is proved to return a code set that can encode the next character (A: ASCII 0..95 or FNC1-4, B: ASCII 32..127 or FNC1-4, C: a digit pair or FNC1) for every content and position, "
@@ -164,6 +174,6 @@ claim("C17",
       "calculateBlackPoints, calculateThresholdForBlock, thresholdBlock, GetBlackRow).",
       "products of symbolic integers uninterpreted except for the proved index lemmas (viewRow, rotIdx, rowIdxInj); errors constructors from xerrors assumed non-panicking.")
 
-for p in ["C02"]:
+for p in []:
     na(p, NOTYET)
 na("C11", "The library has no Aztec writer: 'conforming symbol' would have to be a hand-written restatement of ISO/IEC 24778 (a model, not the code), and the image-to-bits path is a float-geometry detector; no contract on one call of the real code expresses the property. The Aztec decoder's totality is covered under C06.")
